@@ -1,7 +1,7 @@
 //! group `server` — C01–C05, C07–C10: `Server::handle_message` end to end.
 //!
 //! Case lines (one request against one configuration):
-//!   srv <u|t> <payload> <catalog> <reqhex>            → canonical response | none | panic
+//!   srv <u|t> <payload> <catalog> <reqhex>            → response hex | none | panic
 //!   aud <payload> <catalog> <reqhex> <udp> <tcp>      → ok      (udp/tcp = response hex | none | panic;
 //!        the driver's spec column audits the implementation's own octets: C02 C03 C04 C07 C08 C09 …)
 //!
@@ -112,11 +112,7 @@ pub fn run(op: &str, a: &[&str]) -> Option<String> {
         ("srv", [tr, payload, cat, req]) => {
             let (Some(zs), Some(req), Ok(payload)) = (dec_catalog(cat), unhex(req), payload.parse::<u16>()) else { return Some("bad-op".into()) };
             let Some(server) = make_server(&zs, payload) else { return Some("bad-op".into()) };
-            Some(match handle(&server, &req, *tr == "t") {
-                Ok(Some(b)) => dns::canonical(&b, 0),
-                Ok(None) => "none".into(),
-                Err(()) => "panic".into(),
-            })
+            Some(resp_hex(&handle(&server, &req, *tr == "t")))
         }
         ("aud", [payload, cat, req, _udp, _tcp]) => {
             // re-run and check that the recorded octets are what the implementation returns now
@@ -199,7 +195,6 @@ pub fn gen_zone(rng: &mut Rng, apex: Vec<u8>, class: u16) -> ZoneCfg {
     for _ in 0..n {
         let depth = rng.range(0, 3);
         let mut owner = under(rng, &apex, depth);
-        if rng.chance(1, 6) { owner = case_flip(rng, &owner); }
         match rng.below(14) {
             0..=2 => { let rd: Vec<u8> = (0..4).map(|_| rng.byte()).collect(); push(rng, &mut recs, owner, 1, rd); }
             3 => { if class == 1 { let rd: Vec<u8> = (0..16).map(|_| rng.byte()).collect(); push(rng, &mut recs, owner, 28, rd); } }
@@ -283,7 +278,31 @@ fn query_names(rng: &mut Rng, zs: &[ZoneCfg]) -> Vec<Vec<u8>> {
     v
 }
 
+/// a clean, well-formed QUERY aimed at the zone contents (C05/C04), optionally with EDNS
+pub fn gen_clean_query(rng: &mut Rng, zs: &[ZoneCfg]) -> Vec<u8> {
+    let names = query_names(rng, zs);
+    let mut qname = rng.pick(&names).clone();
+    if rng.chance(1, 4) { qname = case_flip(rng, &qname); }
+    let loaded: Vec<&ZoneCfg> = zs.iter().filter(|z| z.kind == 'L').collect();
+    let qclass = if loaded.is_empty() || rng.chance(1, 20) { 1 } else { rng.pick(&loaded).class };
+    let qtype = if rng.chance(1, 3) {
+        // a type that occurs in the zones
+        let tys: Vec<u16> = zs.iter().flat_map(|z| z.recs.iter().map(|r| r.ty)).collect();
+        if tys.is_empty() { 1 } else { *rng.pick(&tys) }
+    } else { *rng.pick(&[1u16, 1, 2, 5, 6, 15, 16, 28, 33, 255, 255, 12, 99]) };
+    let mut ar = 0u16;
+    let mut body = dns::question(&qname, qtype, qclass);
+    if rng.chance(1, 2) {
+        let payload = *rng.pick(&[0u16, 512, 513, 600, 1232, 4096, 65535]);
+        body.extend(dns::rr(&[0], 41, payload, 0, &[])); ar += 1;
+    }
+    let mut m = dns::header(rng.next() as u16, if rng.chance(1, 2) { 0x0100 } else { 0 }, 1, 0, 0, ar);
+    m.extend(body);
+    m
+}
+
 pub fn gen_request(rng: &mut Rng, zs: &[ZoneCfg]) -> Vec<u8> {
+    if rng.chance(1, 2) { return gen_clean_query(rng, zs); }
     let names = query_names(rng, zs);
     let mut qname = rng.pick(&names).clone();
     if rng.chance(1, 5) { qname = case_flip(rng, &qname); }
@@ -299,6 +318,7 @@ pub fn gen_request(rng: &mut Rng, zs: &[ZoneCfg]) -> Vec<u8> {
     // occasional ordinary records in the request
     if rng.chance(1, 10) { let rd = dns::rand_rdata(rng, 1, &[], false); body.extend(dns::rr(&dns::pointer(12), 1, 1, 5, &rd)); an += 1; }
     if rng.chance(1, 14) { body.extend(opt_rr(rng, 1232, 0, &[0])); if rng.chance(1, 2) { an += 1 } else { ns += 1 } } // OPT in the wrong section
+    if rng.chance(1, 8) { let rd = dns::rand_rdata(rng, 16, &[], false); body.extend(dns::rr(&qname, 16, 1, 0, &rd)); ar += 1; } // plain record before the OPT
     if rng.chance(1, 2) {
         let payload = *rng.pick(&[0u16, 511, 512, 513, 1232, 4096, 65535, 100]);
         let ttl: u32 = match rng.below(8) { 0 => 0x0001_0000, 1 => 0x8001_0000, 2 => rng.next() as u32, 3 => 0x0000_8000, 4 => 0xff00_0000, _ => 0 };
@@ -315,6 +335,54 @@ pub fn gen_request(rng: &mut Rng, zs: &[ZoneCfg]) -> Vec<u8> {
     m
 }
 
+/// a zone with large RRsets and long names, to reach the size limits (C04)
+pub fn gen_big_zone(rng: &mut Rng) -> ZoneCfg {
+    let long = |rng: &mut Rng, n: usize| -> Vec<u8> { let mut l: Vec<u8> = Vec::new(); for _ in 0..n { l.push(b'a' + rng.below(26) as u8); } l };
+    let apex = if rng.chance(1, 2) { lname(&[b"big"]) } else {
+        let n1 = rng.range(20, 63); let n2 = rng.range(20, 63); let l1 = long(rng, n1); let l2 = long(rng, n2);
+        dns::name_from_labels(&[l1, l2])
+    };
+    let mut recs = Vec::new();
+    let mut soa = under(rng, &apex, 1); soa.extend(under(rng, &apex, 1));
+    for x in [1u32, 2, 3, 4, 60] { soa.extend_from_slice(&x.to_be_bytes()); }
+    recs.push(Rec { owner: apex.clone(), ty: 6, ttl: 300, rdata: soa });
+    let host = |rng: &mut Rng, i: usize| -> Vec<u8> { let l = format!("h{}", i); let mut w = vec![l.len() as u8]; w.extend_from_slice(l.as_bytes()); if rng.chance(1, 3) { let k = rng.range(10, 40); let x = long(rng, k); w.push(x.len() as u8); w.extend(x); } w };
+    let n_ns = rng.range(1, 12);
+    let mut targets = Vec::new();
+    for i in 0..n_ns { let mut t = host(rng, i); t.extend_from_slice(&apex); targets.push(t.clone()); recs.push(Rec { owner: apex.clone(), ty: 2, ttl: 300, rdata: t }); }
+    for t in &targets {
+        for _ in 0..rng.range(0, 3) { recs.push(Rec { owner: t.clone(), ty: 1, ttl: 60, rdata: (0..4).map(|_| rng.byte()).collect() }); }
+        if rng.chance(1, 2) { recs.push(Rec { owner: t.clone(), ty: 28, ttl: 60, rdata: (0..16).map(|_| rng.byte()).collect() }); }
+    }
+    // a big RRset
+    let mut owner = vec![1, b'w']; owner.extend_from_slice(&apex);
+    let n = *rng.pick(&[1usize, 5, 20, 28, 29, 30, 31, 40, 100, 400]);
+    let ty = *rng.pick(&[1u16, 16, 15, 28]);
+    let mut seen = std::collections::HashSet::new();
+    for i in 0..n {
+        let rd: Vec<u8> = match ty {
+            1 => vec![10, (i >> 8) as u8, i as u8, rng.byte()],
+            28 => { let mut v = vec![0x20; 14]; v.push((i >> 8) as u8); v.push(i as u8); v }
+            16 => { let k = rng.range(1, 60); let mut v = vec![k as u8]; let x = long(rng, k); v.extend(x); v }
+            _ => { let mut v = vec![(i >> 8) as u8, i as u8]; v.extend(targets[i % targets.len()].clone()); v }
+        };
+        if seen.insert(rd.clone()) { recs.push(Rec { owner: owner.clone(), ty, ttl: 30, rdata: rd }); }
+    }
+    // a delegation with many in-bailiwick and sibling name servers
+    let mut child = vec![3, b's', b'u', b'b']; child.extend_from_slice(&apex);
+    for i in 0..rng.range(1, 10) {
+        let mut t = host(rng, 100 + i);
+        if rng.chance(2, 3) { t.extend_from_slice(&child); } else { t.extend_from_slice(&apex); }
+        recs.push(Rec { owner: child.clone(), ty: 2, ttl: 300, rdata: t.clone() });
+        for _ in 0..rng.range(0, 3) { recs.push(Rec { owner: t.clone(), ty: 1, ttl: 60, rdata: (0..4).map(|_| rng.byte()).collect() }); }
+        if rng.chance(1, 2) { recs.push(Rec { owner: t.clone(), ty: 28, ttl: 60, rdata: (0..16).map(|_| rng.byte()).collect() }); }
+    }
+    // dedupe exact duplicates (same owner/type/rdata)
+    let mut uniq = std::collections::HashSet::new();
+    recs.retain(|r| uniq.insert((r.owner.clone(), r.ty, r.rdata.clone())));
+    ZoneCfg { kind: 'L', apex, class: 1, glue_wide: false, recs }
+}
+
 pub fn emit_pair(em: &mut Emitter, server: &Server<Cat>, payload: u16, cat: &str, req: &[u8]) {
     let u = handle(server, req, false);
     let t = handle(server, req, true);
@@ -322,14 +390,13 @@ pub fn emit_pair(em: &mut Emitter, server: &Server<Cat>, payload: u16, cat: &str
     em.emit(&format!("aud {} {} {} {} {}", payload, cat, rh, resp_hex(&u), resp_hex(&t)), "ok");
     if EMIT_SRV {
         for (tr, r) in [("u", &u), ("t", &t)] {
-            let s = match r { Ok(Some(b)) => dns::canonical(b, 0), Ok(None) => "none".into(), Err(()) => "panic".into() };
-            em.emit(&format!("srv {} {} {} {}", tr, payload, cat, rh), &s);
+            em.emit(&format!("srv {} {} {} {}", tr, payload, cat, rh), &resp_hex(r));
         }
     }
 }
 
 /// `srv` lines need the server model in the driver; enabled once it exists.
-pub const EMIT_SRV: bool = false;
+pub const EMIT_SRV: bool = true;
 
 pub fn gen(rng: &mut Rng, thorough: bool, em: &mut Emitter) {
     let n_cat = if thorough { 1500 } else { 120 };
@@ -354,6 +421,19 @@ pub fn gen(rng: &mut Rng, thorough: bool, em: &mut Emitter) {
             }
         }
     }
+    // large RRsets, long names, many name servers: the size limits (C04)
+    let n_big = if thorough { 300 } else { 25 };
+    for _ in 0..n_big {
+        let z = gen_big_zone(rng);
+        let zs = vec![z];
+        let payload = *rng.pick(&[512u16, 513, 700, 1232, 4096, 65535]);
+        let Some(server) = make_server(&zs, payload) else { continue };
+        let cat = enc_catalog(&zs);
+        for _ in 0..12 {
+            let req = gen_clean_query(rng, &zs);
+            emit_pair(em, &server, payload, &cat, &req);
+        }
+    }
     // short messages: all lengths 0..=14 with counts set (C01 witnesses live here)
     let zs = gen_catalog(rng);
     if let Some(server) = make_server(&zs, 1232) {
@@ -365,6 +445,24 @@ pub fn gen(rng: &mut Rng, thorough: bool, em: &mut Emitter) {
                 m.truncate(len);
                 emit_pair(em, &server, 1232, &cat, &m);
             }}}
+        }
+    }
+}
+
+#[allow(dead_code)]
+pub fn debug_big(rng: &mut Rng) {
+    for _ in 0..5 {
+        let z = gen_big_zone(rng);
+        let r = build_catalog(&[z.clone()]);
+        eprintln!("big zone: {} recs -> {:?}", z.recs.len(), r.map(|x| x.1));
+        if let Some(apex) = name(&z.apex) {
+            let mut zone = HashMapTreeZone::new(apex, Class::from(1), GluePolicy::Narrow);
+            for rec in &z.recs {
+                let owner = name(&rec.owner);
+                if owner.is_none() { eprintln!("  bad owner {}", hex(&rec.owner)); continue; }
+                let rd: &Rdata = <&Rdata>::try_from(&rec.rdata[..]).unwrap();
+                if let Err(e) = zone.add(&owner.unwrap(), Type::from(rec.ty), Class::from(1), Ttl::from(rec.ttl), rd) { eprintln!("  add failed {:?} ty {} owner {}", e, rec.ty, hex(&rec.owner)); break; }
+            }
         }
     }
 }
